@@ -335,6 +335,45 @@ def _profiler(repo_prefix):
     return prof
 
 
+def make_state_reset(pk):
+    """Re-execution explores one path per run of the scenario inside ONE process; the package's module-level mutable
+    state (caches, counters, registries) must therefore be put back before every path, or a history-dependent
+    behaviour would only ever be seen on the first path.  Snapshot now, restore on demand."""
+    import types
+    snap = []
+    for mod in vars(pk).values():
+        if not isinstance(mod, types.ModuleType):
+            continue
+        for name, val in list(vars(mod).items()):
+            if name.startswith("__") or name == "np":
+                continue
+            if isinstance(val, (int, float, str, bool, tuple, type(None), frozenset)):
+                snap.append(("scalar", mod, name, val))
+            elif isinstance(val, (list, dict, set)):
+                snap.append(("container", mod, name, (val, type(val)(val))))
+            elif callable(val) and hasattr(val, "cache_clear"):
+                snap.append(("cache", mod, name, val))
+
+    def reset():
+        for kind, mod, name, val in snap:
+            if kind == "scalar":
+                if vars(mod).get(name, None) is not val:
+                    setattr(mod, name, val)
+            elif kind == "container":
+                obj, saved = val
+                cur = vars(mod).get(name)
+                if cur is not obj:
+                    setattr(mod, name, obj)
+                if isinstance(obj, list):
+                    obj[:] = saved
+                else:
+                    obj.clear()
+                    obj.update(saved)
+            else:
+                val.cache_clear()
+    return reset
+
+
 def run_task_symbolic(args):
     """Runs in a pool worker. Returns a JSON-able dict."""
     modname, params, opts = args
@@ -398,7 +437,7 @@ def _run_task_symbolic(modname, params, opts, t0):
     if do_profile:
         sys.setprofile(_profiler(os.path.realpath(_PK.repo)))
     try:
-        paths = eng.run(body, exception_is_result=True)
+        paths = eng.run(body, exception_is_result=True, before_path=make_state_reset(_PK))
     finally:
         if do_profile:
             sys.setprofile(None)
